@@ -17,8 +17,8 @@ CONSTANTS
   USGDs = {99}
   UFull = FALSE
   AutoCreate = TRUE
-  MaxSG = 1
-  MaxOps = 4
+  MaxSG = 2
+  MaxOps = 3
   Record = TRUE
   Probing = TRUE
   NoOpSteps = FALSE
